@@ -14,7 +14,7 @@ def value_record(ty, v):
     if ty == 'integer':
         return {'k': 'int', 'v': int(v)}
     if ty == 'boolean':
-        return {'k': 'bool', 'v': v == 'true'}
+        return {'k': 'bool', 'v': v.lower() == 'true'}
     return {'k': 'str', 'v': v}
 
 
